@@ -46,7 +46,8 @@ Inductive reason :=
 | HashOfInts
   (* hash() of a str: seed dependent BY DESIGN of CPython; the note says why no observable of the property sees it *)
 | HashOfStr (note : string)
-  (* set of str: order is seed dependent; the note says when it has more than one member *)
+  (* set of str (or of objects hashed through a str, such as molecules): order is seed dependent; the note says when
+     it has more than one member *)
 | StrSet (note : string).
 
 Definition site : Type := string * string * string.      (* file, function, kind + normalised source text *)
@@ -63,6 +64,7 @@ Definition f_linear := "chython/algorithms/fingerprints/linear.py".
 Definition f_mfp := "chython/algorithms/fingerprints/morgan.py".
 Definition f_iso := "chython/algorithms/isomorphism.py".
 Definition f_element := "chython/periodictable/base/element.py".
+Definition f_rxnstd := "chython/algorithms/standardize/reaction.py".
 
 Definition rings_note := "unmodelled SSSR heuristic; sets of atom numbers (ints); C06 checks every output with the verified basis checker".
 
@@ -117,7 +119,12 @@ Definition allow_list : list (site * reason) := [
   ((f_mfp, "MorganFingerprint._morgan_hash_dict", "hash hash((tpl, *(x for x in sorted(((int(b), identifiers[ngb]) for ngb, b in bonds[idx].items())) for x in x)))"), HashOfInts);
   (* ---- isomorphism.py ---- *)
   ((f_iso, "MoleculeIsomorphism._cython_compiled_structure", "for for r in a.ring_sizes"), OrderFree "ring_mask_perm");   (* v4 |= 1 << (65 - r) *)
-  ((f_iso, "QueryIsomorphism._cython_compiled_query", "for for r in a.ring_sizes"), OrderFree "ring_mask_perm")
+  ((f_iso, "QueryIsomorphism._cython_compiled_query", "for for r in a.ring_sizes"), OrderFree "ring_mask_perm");
+  (* ---- standardize/reaction.py (outside the anchors; listed because it IS seed dependent) ---- *)
+  ((f_rxnstd, "StandardizeReaction.__remove_reagents_rules", "call tmp.extend(reagents_st2)"),
+     StrSet "GENUINE seed dependence (known finding C19 seed-dependent:rxn-op:remove_reagents): a set of MoleculeContainer, hashed by hash(str(mol)), is appended to the reagents list in set order");
+  ((f_rxnstd, "StandardizeReaction.__remove_reagents_mapping", "call tmp.extend(reagents)"),
+     StrSet "GENUINE seed dependence (known finding C19 seed-dependent:rxn-op:remove_reagents): same construction in the mapping based variant")
 ].
 
 (* lemmas an OrderFree / KeyedTieBreak reason may name: each is a theorem of Props.C19 (C19_<name>) *)
